@@ -16,7 +16,7 @@ META = {
     'bounds': {
         'quick': 'the spelling -> canonical spelling pairs harvested (by ast, on every run) from the repository\'s own '
                  'test_groups.py, each under every random-order spelling of the input (random() symbolic, inputs <= 8 heavy '
-                 'atoms in quick); explicify / implicify / canonicalize / neutralize / fix_resonance / tautomers on 19 seeds '
+                 'atoms in quick); explicify / implicify / canonicalize / neutralize / fix_resonance / tautomers / standardize_charges on 26 seeds, each with and without reading derived values first '
                  'under every spelling; explicify / implicify under every numbering with gaps (distinct solver integers in '
                  '1..2n+2) of 2 seeds',
         'thorough': 'all harvested pairs, 30 seeds',
@@ -129,6 +129,9 @@ def h_hydrogens_numbering(V, smi):
     V.observe('n', added)
 
 
+ALIAS = {'C[n+]1ccn(CC)c1': 'Cn1cc[n+](CC)c1', 'C[n+]1cccn1CC': 'Cn1ccc[n+]1CC'}
+
+
 def normal(m):
     c = m.copy()
     if any(b.order == 4 for *_, b in c.bonds()):
@@ -144,12 +147,20 @@ def h_normalise(V, smi, op):
         src.kekule()
         src.thiele()
     ref = src.copy()
+    if smi in ALIAS and op in ('standardize_charges', 'canonicalize'):      # standardize() alone leaves charges where drawn
+        # the other resonance spelling of the same cation must be brought to the same place
+        ref = chython.smiles(ALIAS[smi])
+        ref.kekule()
+        ref.thiele()
     text, order = respell(V, src.copy())
     m = chython.smiles(text)
     if any(b.order == 4 for *_, b in m.bonds()):
         m.kekule()
         m.thiele()
     info = {'text': text, 'seed': smi, 'op': op}
+    if bool(V.bool('read_before')):      # ordinary bookkeeping before the operation fills the caches
+        str(m), hash(m), m.atoms_order, m.sssr
+        info['read_before'] = True
     hv, ch, hh = heavy(m), int(m), total_h(m)
 
     def run(x):
@@ -159,6 +170,10 @@ def h_normalise(V, smi, op):
             x.standardize(fix_tautomers=False)
         elif op == 'neutralize':
             x.neutralize()
+        elif op == 'standardize_charges':
+            x.standardize_charges()
+        elif op == 'neutralize_all':
+            x.neutralize(keep_charge=False)
         elif op == 'fix_resonance':
             x.fix_resonance()
     if op == 'tautomers':
@@ -177,7 +192,7 @@ def h_normalise(V, smi, op):
     run(m)
     run(ref)
     V.prove(heavy(m) == hv, 'heavy-atom multiset conserved', info)
-    if op == 'neutralize':
+    if op == 'neutralize_all':
         V.prove(int(m) - ch == total_h(m) - hh, 'neutralisation changes charge and hydrogens by the same number of protons',
                 dict(info, got=str(m)))
     else:
@@ -200,7 +215,11 @@ SEEDS_Q = ['CCO', 'CC(=O)O', 'CC(=O)[O-].[Na+]', 'C[N+](C)(C)C', 'NCC(=O)O', 'c1
            # every branch of the charge / radical delocalisation: success, valence roll-back at a quaternary N, the
            # sulfur-cation guard (acyclic and Kekule thiopyrylium), biradical
            '[O-]C=CC=[N+](C)C', '[O-]C=C[N+](C)(C)C', '[O-]C=C[S+]=C', 'CN(C)C1=C[S+]=CC=C1', 'C[S+](C)C=C[O-]',
-           '[CH2]C=C[CH2]']
+           '[CH2]C=C[CH2]',
+           # charge-unbalanced salts: more proton donors than acceptors, and the reverse
+           # azolium cations: the charge is put on a canonical nitrogen whichever resonance spelling came in
+           'Cn1cc[n+](CC)c1', 'C[n+]1ccn(CC)c1', 'Cn1ccc[n+]1CC', 'C[n+]1cccn1CC',
+           '[NH3+]CC([NH3+])C([O-])=O', '[O-]C(=O)CC([NH3+])C([O-])=O', 'C[NH3+].CC(=O)[O-]']
 SEEDS_T = SEEDS_Q + ['Oc1ccccc1', 'O=C1C=CNC=C1', 'CC(O)=N', 'NC(=N)N', 'OP(O)(O)=O', 'C1=CC=CC=C1', 'F/C=C/C(=O)O',
                      'CC(=O)Oc1ccccc1', 'N[C@@H](CS)C(O)=O', 'C[S+](C)[O-]', 'CC#N', 'C=CC=O', 'OC1=NC=CC=C1', '[O-]c1ccccc1',
                      'CC(=O)NC', 'OCC(O)CO']
@@ -222,7 +241,7 @@ def jobs(tier):
     J.append({'harness': 'group', 'params': {'k': 0, 'falsify': True}, 'twin': True, 'budget_s': 120, 'max_failures': 1})
     for s in (SEEDS_T if T else SEEDS_Q):
         J.append({'harness': 'hydrogens', 'params': {'smi': s}, 'budget_s': 600, 'validate_every': 50, 'max_failures': 3})
-        for op in ('canonicalize', 'standardize', 'neutralize', 'fix_resonance', 'tautomers'):
+        for op in ('canonicalize', 'standardize', 'standardize_charges', 'neutralize', 'neutralize_all', 'fix_resonance', 'tautomers'):
             J.append({'harness': 'normalise', 'params': {'smi': s, 'op': op}, 'budget_s': 600, 'validate_every': 50,
                       'max_failures': 3})
     for s in (['CCO', 'C[NH3+]', 'CC(=O)O', 'N'] if T else ['CCO', 'C[NH3+]']):
